@@ -11,6 +11,11 @@ EXTRA_DIRS_THOROUGH = ("docs/_code", "test")
 
 def check(ctx):
     core4.library_ordering_rule(ctx, "C10")
+    # a readiness that depends on another body's run through a *foreign* module (invisible to the ordering rule above)
+    from . import C29 as _c29
+
+    ctx.use(_c29.REL)
+    _c29.wrapper_order(ctx, "C10")
     core.cg_priority_edges(ctx, "C10")
     core.cg_priority_passthrough(ctx, "C10")
     core.cg_relation_lifting(ctx, "C10")  # every relation (also between exclusive transactions) reaches add_edge: the priority edge orders ready dependencies
